@@ -72,7 +72,8 @@ def gen_case(rng, tier, i):
         times = [rng.choice([[1, "min"], [60, "s"], [0.5, "h"], [30, "min"], [1800, "s"], [2, "s"], [2000, "ms"],
                              [0, "s"], [1, "day"], [0.1 + 0.2, "s"], [0.3, "s"], [300, "ms"], [0.005, "min"],
                              [1800.0000000000002, "s"]]) for _ in range(ntimes)]      # incl. times one ulp apart
-    events = [[rng.choice(times), rng.choice([1, 5, 5, 10, 5])] for _ in range(nev)]
+    prios = [1, 5, 5, 10, 5] if rng.random() < 0.6 else [1, 5, 0, 10, -2, 11, 0]     # any int is a priority, zero and negatives included
+    events = [[rng.choice(times), rng.choice(prios)] for _ in range(nev)]
     nops = rng.randint(5, 60)
     ops = []
     present = set()
@@ -142,8 +143,14 @@ def run_case(case, ctx):
     if len(set(ids)) != len(ids) or ids != sorted(ids):
         ctx.viol("event-ids-not-unique-or-not-in-creation-order", {"ids": ids})
         return
-    # exact keys: Python compares int with float exactly; a Duration orders by its SI value
-    key = {k: ((e.time if type(e.time) in (int, float) else float(e.time)), -e.priority, k) for k, e in enumerate(evs)}
+    # an event reports the time and the priority it was created with
+    for e, (t, p) in zip(evs, case["events"]):
+        if e.priority != p or type(e.priority) is not type(p):
+            ctx.viol("event-reports-another-priority-than-it-was-created-with", {"created_with": p, "reports": e.priority})
+            return
+    # exact keys: Python compares int with float exactly; a Duration orders by its SI value.  The priority is the one the
+    # event was created with (not what it reports)
+    key = {k: ((e.time if type(e.time) in (int, float) else float(e.time)), -case["events"][k][1], k) for k, e in enumerate(evs)}
     idx = {id(e): k for k, e in enumerate(evs)}
     real = EventListHeap()
     model = set()
